@@ -166,6 +166,50 @@ pub fn update<const N: usize, const M: usize>() {
   core::mem::forget(set);
 }
 
+/// `change` (replace / update) on a *concrete* four-element set with symbolic arguments drawn from its keys and one
+/// absent key: the drain / filter / extend machinery is out of CBMC's reach on symbolic contents (replace_1 hit the
+/// 20-minute cap), concrete contents keep the heap concrete and leave the argument pair to the solver.
+fn concrete4() -> ([u8; 4], OrderedSet<u8>) {
+  let a = [10u8, 20, 30, 40];
+  let mut set: OrderedSet<u8> = OrderedSet::new();
+  let mut i = 0;
+  while i < 4 {
+    assert!(set.append(a[i]));
+    i += 1;
+  }
+  (a, set)
+}
+
+fn key5() -> u8 {
+  let k: u8 = any();
+  assume(k == 10 || k == 20 || k == 30 || k == 40 || k == 50);
+  k
+}
+
+pub fn replace_concrete_4() {
+  let (a, mut set) = concrete4();
+  let (cur, upd) = (key5(), key5());
+  let flag = set.replace(&cur, upd);
+  let (done, want, n) = model_change::<4, 4>(&a, [cur, upd], upd);
+  assert_eq!(flag, done);
+  same(&set, &want, n);
+  sym_cover!(done && cur != upd && n == 3, "two present keys merged");
+  core::mem::forget(set);
+}
+
+pub fn update_concrete_4() {
+  let (a, mut set) = concrete4();
+  let upd = key5();
+  let flag = set.update(upd);
+  let (done, want, n) = model_change::<4, 4>(&a, [upd, upd], upd);
+  assert_eq!(flag, done);
+  same(&set, &want, n);
+  sym_cover!(done, "present key updated");
+  core::mem::forget(set);
+}
+proof!(c19_replace_concrete_4, unwind = 7, replace_concrete_4);
+proof!(c19_update_concrete_4, unwind = 7, update_concrete_4);
+
 /// key = projection: replace keeps position and swaps in the *new* value; uniqueness is by key, not by value
 pub fn replace_kv_2() {
   let ks: [u8; 2] = [any(), any()];
@@ -290,6 +334,8 @@ pub const BODIES: &[(&str, fn())] = &[
   ("c19_update_1", b_update_1),
   ("c19_update_2", b_update_2),
   ("c19_replace_kv_2", replace_kv_2),
+  ("c19_replace_concrete_4", replace_concrete_4),
+  ("c19_update_concrete_4", update_concrete_4),
   ("c19_from_vec_3", from_vec_3),
   ("c19_twin_must_fail", twin_must_fail),
 ];
